@@ -1,0 +1,20 @@
+//!
+//! Verification hooks (feature `verif-hooks`, off by default). Add-only public wrappers around
+//! crate-private items so that out-of-tree proof harnesses can reach them. Not part of the API.
+//!
+
+use crate::messages::message_header::MessageHeader;
+use crate::messages::{Message, MessageContents};
+
+/// Wraps the crate-private [Message::unsegmented] constructor.
+pub fn message_unsegmented(header: MessageHeader, contents: MessageContents) -> Message {
+    Message::unsegmented(header, contents)
+}
+
+/// Wraps the crate-private `util::get_datetime`.
+pub fn get_datetime(
+    modified_julian_date: u16,
+    past_midnight: chrono::Duration,
+) -> Option<chrono::DateTime<chrono::Utc>> {
+    crate::util::get_datetime(modified_julian_date, past_midnight)
+}
